@@ -124,6 +124,14 @@ UNITS = {
         'template': 'oligocgr_vec.vrs', 'backend': 'verus',
         'serves': ['C12'],
     },
+    'count_route': {
+        'template': 'count_route.vrs', 'backend': 'verus',
+        'serves': ['C07', 'C14'],
+    },
+    'cli_wiring': {
+        'template': 'cli_wiring.vrs', 'backend': 'verus',
+        'serves': ['C15'],
+    },
     'n2k': {
         'template': 'n2k.vrs', 'backend': 'verus',
         'serves': ['C02', 'C03'],
@@ -196,7 +204,7 @@ PROPS = {
         'not_reached': ['text rendering of the row (format!("{:.6}"), join) and the file/CLI path: see C05', 'pyo3 argument conversion for the binding'],
     },
     'C14': {
-        'units': ['mmap_rows', 'oligo_vec'], 'deps': ['kmer_gen', 'posmaps'], 'replay': 'c14',
+        'units': ['mmap_rows', 'oligo_vec', 'cov_vec', 'count_route'], 'deps': ['kmer_gen', 'posmaps'], 'replay': 'c14',
         'level_text': 'Verus proves (a) every get_unchecked / get_unchecked_mut call site of the oligo accumulation loops (3 copies) against exactly the '
                       'safety precondition of the unchecked access, for every byte string and every k <= 15; (b) for the integer layout statements of vectorise_mmap, lifted '
                       'verbatim: per-row size equals the real row length for every delimiter length, the mapping size is header + records x row length (exact tiling), and each '
@@ -273,6 +281,26 @@ PROPS = {
                       'interpreter behaviour. String::as_bytes is the UTF-8 encoding (assumed). No Python interpreter is run by this check.',
         'not_reached': ['pyo3 glue, GIL, error mapping', 'unsafe transmute in pybindings/src/kmer.rs and min.rs', 'vectorise_batch order (rayon collect)'],
         'fn_filter': r'^py::',
+    },
+    'C07': {
+        'units': ['count_route'], 'deps': ['kmer_gen', 'n2k'], 'replay': 'c07',
+        'level_text': 'Narrow claim. Verus proves for the lifted per-record loop of count_chunk, every byte string, k <= 31 and every partition count >= 1: each valid window causes exactly one increment, of its '
+                      'canonical code, in partition (code mod n_parts), nothing else in the table changes, and the unchecked partition index is in bounds; hence a k-mer lives in exactly one partition across all chunks. '
+                      'ACGT rendering uses numeric_to_kmer (C02 contract).',
+        'level_note': 'assumed, not verified: scc entry().and_modify().or_insert() is an atomic read-modify-write (stub verif_incr; a change to a non-atomic read+insert no longer matches the rewrite and is reported undecided); '
+                      'fewer than 2^32 occurrences per k-mer (u32 counters); n_parts >= 1 (init takes max(threads, ..) with threads >= 1; float ceil not modelled). NOT reached: worker interleavings, the limit/EOF race, '
+                      'chunk files, merge (text parsing, file deletion), progress bar - concurrency and I/O through scc/rayon/fs.',
+        'not_reached': ['worker interleavings and chunk boundaries', 'merge(): parsing chunk files, summing, deleting temporary files', 'init(): partition count from float arithmetic'],
+    },
+    'C15': {
+        'units': ['cli_wiring'], 'deps': [], 'replay': None,
+        'level_text': 'Narrow claim. Verus proves for the lifted option-to-setter statements of the oligo, coverage, counter and minimiser arms of cli(), against stub computers whose setters record a ghost configuration: '
+                      'csv/tsv/spc change only the delimiter (",", tab, space), the header flag only sets header, counts only flips normalisation, --acgt only sets the rendering flag, the thread option is applied iff > 0 and touches nothing else, '
+                      'k / bins / memory / alt-input are passed through unchanged; and every value accepted by the clap value_parser ranges (read from the attribute text on every run) satisfies the preconditions of the library '
+                      '(k <= 15 for composition, k <= 31 for counting, bin sizes >= 1, m <= 30, a window of 0 or longer than m - otherwise the arm returns after a diagnostic without calling the library).',
+        'level_note': 'assumed / not verified: clap parses the options as declared and enforces the ranges; stub computers stand for the real setters (each real setter is a one-line field assignment, not extracted); '
+                      'exit status, "without producing output", diagnostics text and CLI == library equality on files are process behaviour outside any function contract. The cgr arm (float default for the square size) is not lifted.',
+        'not_reached': ['clap parsing/diagnostics and process exit status', 'the cgr arm of cli()', 'equality of CLI output and library output on files', 'stdin input'],
     },
 }
 
